@@ -419,6 +419,10 @@ def finish(ctx, level="model_checking", rule="", assumptions=None, checker_cmd="
     for what, n in known_hits.items():
         print("KNOWN-FINDING: property=%s %s (%d cases)" % (ctx.prop, what, n))
     replay_paths = []
+    if new_viol and os.environ.get("VERIF_DUMP_REJECTS"):
+        with open(os.environ["VERIF_DUMP_REJECTS"], "w") as f:
+            for o, exp, note in new_viol:
+                f.write(json.dumps({"case": o, "expected": exp, "note": note}) + "\n")
     if new_viol:
         rdir = os.path.join(VERIF, "replays", ctx.prop)
         os.makedirs(rdir, exist_ok=True)
